@@ -983,7 +983,23 @@ def oracle_conv(c, o):
         return None if got == want and ob["nnz"] == len(want) and ob["shape"] == a["mshape"] else "sptenmat differs from the matrix"
     if c.op == "kfull":
         want = [_den_k(a["K"], i) for i in tgen.all_subs(a["shape"])]
-        return None if o["ok"]["data"] == want and o["ok"]["shape"] == a["shape"] else "full(K) differs from sum_r w_r prod_n A_n[i_n,r]"
+        if o["ok"]["data"] != want or o["ok"]["shape"] != a["shape"]:
+            return "full(K) differs from sum_r w_r prod_n A_n[i_n,r]"
+        if o.get("double") != o["ok"]:
+            return "double(K) differs from full(K)"
+        tm = o.get("tenmat")
+        if not isinstance(tm, dict) or "data" not in tm:
+            return f"to_tenmat(K) raised: {tm}"
+        shp = a["shape"]
+        r, c_ = _resolve(a.get("treq", {"rd": [0], "cd": None, "cy": None}), len(shp))
+        rs, cs = [shp[k] for k in r], [shp[k] for k in c_]
+        R, C = math.prod(rs), math.prod(cs)
+        if tm["data"]["shape"] != [R, C] or tm["r"] != r or tm["c"] != c_ or tm["tshape"] != shp:
+            return f"to_tenmat(K) reports rows/cols/modes {tm['data']['shape']} {tm['r']} {tm['c']}, requested ({R},{C}) {r} {c_}"
+        for i in tgen.all_subs(shp):
+            if tm["data"]["data"][_lin(rs, [i[k] for k in r]) + R * _lin(cs, [i[k] for k in c_])] != want[_lin(shp, i)]:
+                return f"to_tenmat(K): matrix entry of tensor entry {i} is not sum_r w_r prod_n A_n[i_n,r]"
+        return None
     if c.op == "tfull":
         want = [_den_t(a["T"], i) for i in tgen.all_subs(a["shape"])]
         return None if o["ok"]["data"] == want and o["ok"]["shape"] == a["shape"] else "full(T) differs from sum_j G[j] prod_n U_n[i_n,j_n]"
